@@ -631,6 +631,21 @@ example : Poly3.faceCheck exSq = true := by
   simp [Poly3.planarCheck, Poly3.ccwCheck, Poly3.cornerCross, Spec3.areaVector, Spec3.cyc, exSq, exSqT,
     V3.cross, V3.dot, V3.sum, V3.add, V3.zero, Scalar.lit, Scalar.eqb]
 
+/-- **the coplanarity test of `get_face_area` (as repaired by 744f807) never rejects an exactly planar
+face**, whatever its size and position: `|(v − v₀)·n| = 0 ≤ 1e-4 · extent`. (Defect D2 — the absolute `atol`
+of `np.isclose(n·v, d, 1e-4)` rejecting large faces near the origin — was floating point only; the relative
+test has no absolute threshold left.) -/
+theorem face_coplanar_test_passes (n : V3 ℝ) (vs : List (V3 ℝ))
+    (h : ∀ v ∈ vs, V3.dot (v - vs.getD 0 V3.zero) n = 0) :
+    Poly3.coplanar n vs (Scalar.q 1 10000) = true :=
+  Poly3.coplanar_of_planar n vs _ (by simp only [Scalar.q, Scalar.ofNat_real]; positivity) h
+
+example : Poly3.coplanar (⟨0, 0, 1⟩ : V3 ℝ) exSq (Scalar.q 1 10000) = true :=
+  face_coplanar_test_passes _ _ (by
+    intro v hv
+    simp only [exSq, List.mem_cons, List.not_mem_nil, or_false] at hv
+    rcases hv with rfl | rfl | rfl | rfl <;> simp [exSq, V3.dot])
+
 /-! #### non-vacuity of `polytri_stuck_fails` -/
 
 def exStuck : List (V3 ℝ) := [⟨2,1,0⟩, ⟨4,1,0⟩, ⟨0,3,0⟩, ⟨0,1,0⟩, ⟨3,1,0⟩]
